@@ -272,7 +272,7 @@ Section Geom.
                 (tails shapes) n0 in
     fold_left (fun acc shape1 =>
       fold_left (fun acc2 pos =>
-        fold_left (fun acc3 t2 => acc3 + ljshape_energy shape1 (map (lj_transform t2) (l_shape st)))
+        fold_left (fun acc3 t2 => acc3 + nhalf * ljshape_energy shape1 (map (lj_transform t2) (l_shape st)))
                   (periodic_images (l_cell st) pos 3 false) acc2)
         (lj_relative st) acc)
       shapes s1.
